@@ -7,6 +7,7 @@ import (
 	"sort"
 	"strconv"
 	"strings"
+	"syscall"
 	"time"
 
 	"github.com/whatap/golib/logger/logfile"
@@ -67,26 +68,27 @@ type c17Read struct {
 }
 
 type c17Data struct {
-	LogID     string            `json:"log_id"`
-	Oname     string            `json:"oname"`
-	Level     int               `json:"level"`
-	Interval  int               `json:"interval_s"`
-	KeepDays  int               `json:"keep_days"`
-	Rotation  bool              `json:"rotation"`
-	Tasks     int               `json:"tasks"`
-	Calls     []*c17Call        `json:"calls"`
-	Reads     []*c17Read        `json:"reads"`
-	Steps     []string          `json:"clock_steps"`
-	Initial   map[string]string `json:"-"`
-	InitNames []string          `json:"initial_files"`
-	FinalList []string          `json:"final_files"`
-	EndMs     int64             `json:"end_ms"`
-	EndNs     int64             `json:"end_ns"`
-	epochMs   int64
-	final     map[string]string
-	removed   map[string]func() []byte
-	gaps      [][2]int64 // jumped-over intervals of the virtual timeline (elapsed ns)
-	jumped    bool
+	LogID      string            `json:"log_id"`
+	Oname      string            `json:"oname"`
+	Level      int               `json:"level"`
+	Interval   int               `json:"interval_s"`
+	KeepDays   int               `json:"keep_days"`
+	Rotation   bool              `json:"rotation"`
+	Tasks      int               `json:"tasks"`
+	Calls      []*c17Call        `json:"calls"`
+	Reads      []*c17Read        `json:"reads"`
+	Steps      []string          `json:"clock_steps"`
+	OpenFailed []string          `json:"open_failures,omitempty"`
+	Initial    map[string]string `json:"-"`
+	InitNames  []string          `json:"initial_files"`
+	FinalList  []string          `json:"final_files"`
+	EndMs      int64             `json:"end_ms"`
+	EndNs      int64             `json:"end_ns"`
+	epochMs    int64
+	final      map[string]string
+	removed    map[string]func() []byte
+	gaps       [][2]int64 // jumped-over intervals of the virtual timeline (elapsed ns)
+	jumped     bool
 }
 
 //go:norace
@@ -203,6 +205,21 @@ func c17Body(rc *RunCtx) {
 	}
 	sort.Strings(d.InitNames)
 	lg := logfile.NewFileLogger(opts...)
+	if simrt.ChanceF(1, 5) {
+		// fault: from now on an open for append of a log file may fail (descriptor table full,
+		// disk full, permission lost), at most twice per run. The logger then has no new file
+		// and must carry on with the one it has.
+		left := 2
+		disk.FailOpen = func(p string, flag int) error {
+			if left == 0 || flag&simos.O_APPEND == 0 || !strings.HasPrefix(p, c17Home+"/logs/") || !simrt.ChanceF(1, 2) {
+				return nil
+			}
+			left--
+			c17OpenFailed(d, p)
+			simrt.Fault("log_open_failure")
+			return []error{syscall.EMFILE, syscall.ENOSPC, syscall.EACCES}[simrt.ChooseF(3)]
+		}
+	}
 	if useConf {
 		d.Level = simrt.Choose(4)
 		d.Interval = []int{10, 0, 1, 3, 30}[simrt.Choose(5)]
@@ -397,6 +414,11 @@ func c17Body(rc *RunCtx) {
 }
 
 //go:norace
+func c17OpenFailed(d *c17Data, p string) {
+	d.OpenFailed = append(d.OpenFailed, fmt.Sprintf("%s at elapsed %.3fs", filepath.Base(p), float64(simrt.Elapsed())/1e9))
+}
+
+//go:norace
 func c17Gap(d *c17Data, a, b int64) { d.gaps = append(d.gaps, [2]int64{a, b}) }
 
 //go:norace
@@ -502,7 +524,8 @@ func c17After(rc *RunCtx, res *simrt.Result) {
 					okName = true
 				}
 			}
-			if !d.Rotation {
+			if !d.Rotation || len(d.OpenFailed) > 0 {
+				// after an injected open failure the logger legitimately stays on the file it has;
 				// the statement does not define the name used while rotation is disabled; the
 				// logger opens a dated file at construction and switches at a later cycle: accept
 				// the undated name and any dated own name up to the call's date
